@@ -9,6 +9,7 @@ import DaskModel.Model.SetItemND
 import DaskModel.Model.NormIndex
 import DaskModel.Model.VIndex
 import DaskModel.Model.ArrayCache
+import DaskModel.Model.C20xIO
 open Dask
 open Dask.Slice1D
 open Dask.SetItem
@@ -475,7 +476,7 @@ def table : List (String × Handler) := [
   ("blockbool", hBlockBool), ("revvalue", hRevValue),
   ("pyindices", hPyIndices), ("pyslice", hPySlice), ("pymod", hPyMod), ("normslice", hNormSlice),
   ("slice1d", hSlice1d), ("slice1dint", hSlice1dInt), ("newblockdim", hNewBlockdim),
-  ("planden", hPlanDen), ("posify", hPosify), ("takeplan", hTakePlan)]
+  ("planden", hPlanDen), ("posify", hPosify), ("takeplan", hTakePlan)] ++ Dask.C20xIO.handlers
 
 end SlicingDriver
 
